@@ -637,4 +637,35 @@ Proof.
   destruct (rt_find_pure other _) as [[im e']|]; [|apply nf_ret]. destruct (_ =? _); [exact IH|apply nf_ret].
 Qed.
 
+Lemma nf_insert_all (items : list (N * N * N)) :
+  nf (iterM (fun x => let '(k, kid, v) := x in
+                      o <- map_insert c k kid v ;;
+                      match o with Some v' => drop_val v' | None => ret tt end) items).
+Proof.
+  apply nf_iterM. intros [[k kid] v]. apply nf_bind; [apply (nf_of_cost _ _ (cost_map_insert k kid v))|].
+  intros [v'|]; [nf0 cost_drop_val|apply nf_ret].
+Qed.
+
+Lemma nf_map_extend items hint : nf (map_extend c items hint).
+Proof.
+  unfold map_extend. apply nf_bind; [nf0 cost_get|]. intros s0.
+  apply nf_bind; [|intros _; apply nf_insert_all].
+  apply nf_on_unwind; [apply nf_rt_reserve|]. apply nf_iterM. intros [[k kid] v].
+  apply nf_bind; [nf0 cost_drop_key|intros _; nf0 cost_drop_val].
+Qed.
+
+Lemma nf_map_par_extend chunks : nf (map_par_extend c chunks).
+Proof.
+  unfold map_par_extend. apply nf_bind; [nf0 cost_get|]. intros s0.
+  apply nf_bind; [|intros _; apply nf_iterM; intros ch; apply nf_map_extend].
+  apply nf_on_unwind; [apply nf_rt_reserve|]. apply nf_iterM. intros [[k kid] v].
+  apply nf_bind; [nf0 cost_drop_key|intros _; nf0 cost_drop_val].
+Qed.
+
+Lemma nf_map_par_iter delta splits : nf (map_par_iter delta splits).
+Proof.
+  unfold map_par_iter. apply nf_bind; [apply nf_rt_iter|]. intros l.
+  apply nf_bind; [apply nf_iterM; intros x; apply nf_when, nf_set_value|intros _; apply nf_ret].
+Qed.
+
 End CostRaw.
